@@ -51,7 +51,7 @@ type Field struct {
 
 // Step is one write of the movement script.
 type Step struct {
-	Op      string  `json:"op"` // set setstr setex fset del pdel drop
+	Op      string  `json:"op"` // set setstr setex fset del pdel drop redef
 	Key     int     `json:"key"`
 	ID      string  `json:"id,omitempty"`
 	Kind    string  `json:"kind,omitempty"` // point pointz rect
@@ -61,6 +61,15 @@ type Step struct {
 	Fields  []Field `json:"fields,omitempty"`
 	Pattern string  `json:"pattern,omitempty"`
 	Phase   string  `json:"phase,omitempty"` // "closing" for the sentinel sequence
+	// redef: re-definition of fence #Fence (a channel or webhook, never the
+	// fence under test) under the same name. Variant: identical (the tokens
+	// sent last, verbatim), keyword-case (same definition, keywords and
+	// DETECT/COMMANDS lists in the other letter case), match-case (MATCH
+	// pattern differs only by letter case), detect, area. Spec is the
+	// definition in force from the acknowledgement on.
+	Fence   int        `json:"fence,omitempty"`
+	Variant string     `json:"variant,omitempty"`
+	Spec    *FenceSpec `json:"spec,omitempty"`
 }
 
 // Case is a complete generated case (also the replay format).
@@ -71,6 +80,9 @@ type Case struct {
 	// their replies are read, so that several writes are pending for a live
 	// fence connection at once.
 	Pipeline int `json:"pipeline,omitempty"`
+	// HookFault: the webhook endpoint answers 500 once per hook, on the second
+	// notification of one write (= in the middle of a delivery batch).
+	HookFault bool `json:"hook_fault,omitempty"`
 }
 
 var allDetects = []string{"inside", "outside", "enter", "exit", "cross"}
@@ -621,3 +633,39 @@ func matchStream(exp []xmsg, got []gmsg) matchResult {
 func sameMsgG(a, b gmsg) bool {
 	return a.Cmd == b.Cmd && a.Detect == b.Detect && a.ID == b.ID && a.Obj == b.Obj && a.Fields == b.Fields
 }
+
+var fenceKeywords = map[string]bool{"NEARBY": true, "WITHIN": true, "INTERSECTS": true, "MATCH": true, "WHERE": true,
+	"WHEREIN": true, "LIMIT": true, "SPARSE": true, "FENCE": true, "DETECT": true, "COMMANDS": true, "POINT": true,
+	"CIRCLE": true, "BOUNDS": true, "OBJECT": true, "TILE": true, "HASH": true}
+
+// flipKeywordCase writes the keywords of a fence command in lower case and
+// the DETECT / COMMANDS lists in upper case; operands are left alone. The
+// definition means exactly the same.
+func flipKeywordCase(tok []string) []string {
+	out := make([]string, len(tok))
+	for i, t := range tok {
+		out[i] = t
+		if fenceKeywords[t] {
+			out[i] = strings.ToLower(t)
+		}
+		if i > 0 && (tok[i-1] == "DETECT" || tok[i-1] == "COMMANDS") {
+			out[i] = strings.ToUpper(t)
+		}
+	}
+	return out
+}
+
+func swapCase(s string) string {
+	b := []byte(s)
+	for i, c := range b {
+		switch {
+		case c >= 'a' && c <= 'z':
+			b[i] = c - 32
+		case c >= 'A' && c <= 'Z':
+			b[i] = c + 32
+		}
+	}
+	return string(b)
+}
+
+func hasLetter(s string) bool { return swapCase(s) != s }
